@@ -29,10 +29,14 @@ func main() {
 		Rule: "sequential: every history of length <= 2 (thorough: 3) over a tool alphabet {register a/b, re-register a, unregister [a] / [b,a,a] / [\"\",q], call a, register \"\"} " +
 			"and every history of length 3 over {register x3, re-register, register \"\", call, (notif: unregister)} for prompts, resources, templates, notification handlers, each followed by list / GetTools / call / GetTool observations, " +
 			"plus seeded random histories (5..45 ops, thorough 5..125) over all five registries, on a fresh real server each, through the public Server API and raw HTTP POSTs on two sessions; order slices and key sets read through the verif hook after every mutation; " +
+			"degenerate registrations mixed in: a NIL handler on every registry (stored and listed like any other; first with a nil handler and properly later, and the other way round), " +
+			"and registrations that store nothing (nil descriptor with and without a handler, empty key with a nil handler, template without a URI template: no step of the model, every registry must be unchanged); " +
+			"after every step the order slice and the map of every ordered registry are compared through the hook (registry:order-map-mismatch:<kind>); " +
 			"non-trivial = a live entry was replaced or removed and the registry observed afterwards. " +
 			"concurrent (sub-processes, one per workload: tools all ops, tools under unthrottled registration, prompts list, prompts get, resources list, resources read, templates list, notification handlers): 3 writer goroutines (register / re-register / unregister on disjoint names) against 6 reader goroutines on 4 client sessions; " +
 			"each observation is checked post hoc against the writers' logical-clock log; non-trivial = an observation whose window overlapped at least one write. " +
-			"register race (sub-processes, per registry): 8 fresh servers x 1000 rounds in which 8 goroutines register the SAME fresh name at the same moment (GOMAXPROCS >= 4), then list + hook: one entry per name, order slice == key set. " +
+			"in the list-only workloads every fifth registration passes a nil handler. " +
+			"register race (sub-processes, per registry): 8 fresh servers x 1000 rounds in which 8 goroutines register the SAME fresh name at the same moment (GOMAXPROCS >= 4; one of the eight with a nil handler), then list + hook: one entry per name, order slice == key set. " +
 			"reentrant (one sub-process, one fresh server per case): every user callback of the streamable Server {notification, tool, prompt, resource, resources handler, tool / prompt / resource list filter} x " +
 			"every operation called from INSIDE the callback {register new / re-register / unregister in each of the five registries, unregister several, GetTool, GetTools, and the running entry unregistering / replacing ITSELF}: " +
 			"operation and request must return within 5 s (else registry:deadlock:<callback>:<operation>), the completed case is a sequential history diffed with the model (look-up, inner operation, 17+ observations); " +
